@@ -13,7 +13,7 @@ META = {
                    'is exactly the inverse-CDF rule with the conditional Born probabilities computed by an independent oracle: P(prefix) = sum over the unmeasured sites '
                    'and the open bond of |contracted amplitude|^2 (the marginal with the right environment replaced by the identity, which is the true marginal for a '
                    'right-orthonormal state -- certificate); the returned rows are the distinct sampled bit strings and the relative frequencies sum to one. '
-                   'Decided certificate: for right-orthonormal trailing cores the identity environment equals the true environment.',
+                   'Decided certificate: for right-orthonormal trailing cores the identity environment equals the true environment. States with mixed dtypes per core (real first core, complex later cores). NOT solver-decided, sampled by the validation run (scenario large_sample): 8 qubits x 2500 samples and 6 qubits x 5000 samples on maximal-rank states against the dense inverse-CDF oracle.',
     'bounds': {'quick': '2-3 qubits, ranks {1,2}, complex amplitudes, every non-empty subset of measured sites (ordered), 1-2 samples', 'thorough': '3 samples on 2 qubits, rank-2 3-qubit states with 2 samples'},
     'outside': ['convergence of frequencies for large sample counts (law of large numbers on top of the exact conditional)', 'plotting', 'rounding'],
     'assumptions': ['state is right-orthonormal (documented precondition) for the identification of the identity-environment marginal with the Born marginal',
